@@ -29,6 +29,15 @@ def _setup_paths() -> str:
 def _child(mod, fn: str, args: dict, wfd: int, timeout: float) -> None:
     try:
         faulthandler.dump_traceback_later(timeout + 5, exit=True)
+        try:
+            # unpickling interleaved bytes of two in-place writers can ask for a memo of billions of
+            # entries: let such an allocation fail at once (MemoryError) instead of zeroing 30 GB
+            import resource  # noqa: PLC0415
+
+            limit = int(os.environ.get("VERIF_CHILD_AS_LIMIT", 8 << 30))
+            resource.setrlimit(resource.RLIMIT_AS, (limit, limit))
+        except (ImportError, ValueError, OSError):
+            pass
         devnull = os.open(os.devnull, os.O_WRONLY)
         os.dup2(devnull, 1)
         if not os.environ.get("VERIF_DEBUG"):
